@@ -516,6 +516,43 @@ impl<'a> Hist<'a> {
                 });
                 let detail = if tips > 0 { "pending-tips" } else { "no-pending-tips" };
                 self.out.fact("C08", "continuation-differs", cont == Ok(true), detail);
+                // faucets across the restart: on the original and on the rebuilt state alike, a faucet nobody has seen is
+                // accepted in the next block and every faucet accepted earlier is refused (the one grandfathered transaction
+                // aside, which both sides must treat alike) - also AFTER the rebuilt state has accepted a new one
+                {
+                    let fresh = Transaction {
+                        kind: TxKind::Faucet,
+                        inputs: vec![],
+                        outputs: vec![crate::txgen::out(Address(tmelcrypt::hash_single(b"restart faucet")), 1000, Denom::Mel)],
+                        fee: CoinValue(0),
+                        covenants: vec![],
+                        data: tmelcrypt::hash_single(dst.as_bytes()).0.to_vec().into(),
+                        sigs: vec![],
+                    };
+                    let olds: Vec<Transaction> = self.faucets_seen.iter().rev().take(4).cloned().collect();
+                    let run = |st: &SealedState<Cas>| -> Result<Vec<bool>, ()> {
+                        silent(|| {
+                            let mut u = st.next_unsealed();
+                            let mut v = vec![u.apply_tx(&fresh).is_ok()];
+                            for f in &olds {
+                                v.push(u.apply_tx(f).is_ok());
+                            }
+                            v
+                        })
+                    };
+                    let (a, b) = (run(&s), run(&restored));
+                    self.out.fact("C08", "faucet-verdicts-equal-after-restart", a == b, &format!("original {:?} rebuilt {:?}", a, b));
+                    if let Ok(vb) = &b {
+                        let gf = crate::txgen::grandfathered_faucet().hash_nosigs();
+                        let p = s.verif_inner().verif_parts();
+                        let in_state = |f: &Transaction| {
+                            // was this faucet really accepted on this lineage? its marker is in the coin tree
+                            melstf::CoinMapping::new(p.coins.clone()).get_coin(crate::world::fdp(f.hash_nosigs())).is_some()
+                        };
+                        let replayed: Vec<String> = olds.iter().zip(vb.iter().skip(1)).filter(|(f, ok)| **ok && f.hash_nosigs() != gf && in_state(f)).map(|(f, _)| hx(&f.hash_nosigs().0 .0[..4])).collect();
+                        self.out.fact("C19", "faucet-replayed-after-restart-refused", replayed.is_empty(), &replayed.join(" "));
+                    }
+                }
                 self.w.sealed.insert(dst.clone(), restored);
                 self.bump("op:restore");
                 Some(dst)
@@ -785,6 +822,42 @@ impl<'a> Hist<'a> {
                         }
                     }
                 }
+            }
+        }
+        // two members spend coins locked by the SAME covenant, and only one of them carries it: what a transaction may use
+        // is what that transaction itself lists (and pays for), not what a batch mate brought along
+        if em.mutate > 0 && r.chance(1, 12) {
+            let p = self.parts(name);
+            let coins_map = CoinMapping::new(p.coins.clone());
+            let wcoins = self.wallet.coins(&coins_map, &self.w.names);
+            // two coins of one covenant hash, each worth enough to pay a fee
+            let mut pair: Option<(WCoin, WCoin)> = None;
+            for (i, a) in wcoins.iter().enumerate() {
+                if a.cdh.coin_data.denom != Denom::Mel || a.cdh.coin_data.value.0 < 100_000_000 || !matches!(a.spec, CovSpec::StdNew(_) | CovSpec::AlwaysTrue | CovSpec::StdLegacy(_)) {
+                    continue;
+                }
+                if let Some(b) = wcoins.iter().skip(i + 1).find(|b| b.cdh.coin_data.covhash == a.cdh.coin_data.covhash && b.cdh.coin_data.denom == Denom::Mel && b.cdh.coin_data.value.0 >= 100_000_000) {
+                    pair = Some((a.clone(), b.clone()));
+                    break;
+                }
+            }
+            if let Some((ca, cb)) = pair {
+                let dest = self.wallet.spec_addr(CovSpec::StdNew(0));
+                let mk = |w: &Wallet, c: &WCoin, tag: u8| {
+                    let fee = 50_000_000u128.min(c.cdh.coin_data.value.0 / 2);
+                    assemble(w, TxKind::Normal, &[c.clone()], vec![crate::txgen::out(dest, c.cdh.coin_data.value.0 - fee, Denom::Mel)], fee, vec![tag])
+                };
+                let a = mk(&self.wallet, &ca, 1);
+                let mut b = mk(&self.wallet, &cb, 2);
+                // `b` is signed (the signature-free hash does not cover the covenant list either way) but lists no covenant
+                b.covenants.clear();
+                sign(&self.wallet, &mut b, &[cb.clone()]);
+                for t in [&a, &b] {
+                    self.w.names.reg_tx(t);
+                }
+                self.bump("batch:covenant-carried-by-a-batch-mate-only");
+                let v = if r.chance(1, 2) { vec![a, b] } else { vec![b, a] };
+                return (v, "covenant-carried-by-a-batch-mate-only".into());
             }
         }
         // an output of a stake transaction accepted earlier (its first output, or — what a staker would rather try —
@@ -1718,6 +1791,47 @@ fn script_swap_saturation(h: &mut Hist, r: &mut Rng) {
     h.bump("history:swap-saturation-script");
 }
 
+
+/// A scripted TIP-906 activation over a LARGE coin set: more than 4096 distinct covenant hashes, and a few covenant
+/// hashes whose coins are spread all over the tree's iteration order - the one-off initialisation has to count every
+/// coin of every covenant hash however it batches its work.
+fn script_big_activation(h: &mut Hist, r: &mut Rng) {
+    let a0 = h.wallet.spec_addr(CovSpec::StdNew(0));
+    let at = h.wallet.spec_addr(CovSpec::AlwaysTrue);
+    let height = 499u64;
+    let n_distinct = 4100 + r.below(300) as usize;
+    let mut coins = vec![];
+    for i in 0..n_distinct {
+        let cov = Address(tmelcrypt::hash_keyed(b"t906 big activation", (i as u32).to_be_bytes()));
+        coins.push((CoinID::new(TxHash(tmelcrypt::hash_keyed(b"t906bigcoin", (i as u32).to_be_bytes())), 0), CoinDataHeight { coin_data: crate::txgen::out(cov, 1 + i as u128, Denom::Mel), height: BlockHeight(height - 3) }));
+    }
+    // shared covenant hashes: 700 coins of the wallet's key, 300 spendable by anyone
+    for i in 0..1000u32 {
+        let cov = if i % 10 < 7 { a0 } else { at };
+        coins.push((CoinID::new(TxHash(tmelcrypt::hash_keyed(b"t906sharedcoin", i.to_be_bytes())), (i % 3) as u8), CoinDataHeight { coin_data: crate::txgen::out(cov, 1_000_000_000, Denom::Mel), height: BlockHeight(height - 2) }));
+    }
+    let pl = |l: u128, rr: u128, q: u128| PoolState { lefts: l, rights: rr, price_accum: 0, liqs: q };
+    let spec = FabSpec {
+        network: NetID::Testnet,
+        height,
+        fee_pool: 1 << 20,
+        fee_multiplier: 0,
+        dosc_speed: 1_000_000,
+        coins,
+        pools: vec![(PoolKey::new(Denom::Mel, Denom::Sym), pl(2_000_000_000, 3_000_000_000, 1_000_000_000)), (PoolKey::new(Denom::Mel, Denom::Erg), pl(2_000_000_000, 3_000_000_000, 1_000_000_000))],
+        stakes: vec![],
+        history: vec![(height - 1, 1_000_000), (height - 2, 1_000_000)],
+    };
+    let s0 = h.op_fab(&spec);
+    let Some(u) = h.op_next(&s0) else { return }; // 500: the counts are initialised here
+    // after the activation: spend one coin of a shared covenant hash and one of a singleton
+    let shared = WCoin { id: CoinID::new(TxHash(tmelcrypt::hash_keyed(b"t906sharedcoin", 7u32.to_be_bytes())), 1), cdh: CoinDataHeight { coin_data: crate::txgen::out(at, 1_000_000_000, Denom::Mel), height: BlockHeight(height - 2) }, spec: CovSpec::AlwaysTrue };
+    let tx = assemble(&h.wallet, TxKind::Normal, &[shared.clone()], vec![crate::txgen::out(a0, 1_000_000_000, Denom::Mel)], 0, vec![1]);
+    h.w.names.reg_tx(&tx);
+    let _ = h.op_batch(&u, &[tx], "bigactivation:spend-after");
+    h.bump("history:big-activation-script");
+}
+
 /// one history
 pub fn history(r: &mut Rng, w: &mut World, out: &mut Out, em: &Emphasis, stats: &mut BTreeMap<String, u64>) {
     let mut h = Hist { w, wallet: Wallet::new(), out, stats: BTreeMap::new(), faucets_seen: vec![], pending_spenders: vec![], spent_in_block: vec![], stake_txs: vec![], sealed_headers: vec![] };
@@ -1753,6 +1867,12 @@ fn history_body(h: &mut Hist, r: &mut Rng, em: &Emphasis) {
     }
     if em.pool_ops >= 30 && r.chance(1, 30) {
         script_swap_saturation(h, r);
+        return;
+    }
+    // (expensive for the model's association lists - ~20 s per script: only in the thorough tier and when the code of the
+    // repository differs from the committed baseline, i.e. when VERIF_HEAVY is set by tools/check.py)
+    if em.tip_edges > 0 && std::env::var("VERIF_HEAVY").is_ok() && r.chance(1, 45) {
+        script_big_activation(h, r);
         return;
     }
     // starting point
@@ -1896,6 +2016,22 @@ fn history_body(h: &mut Hist, r: &mut Rng, em: &Emphasis) {
                     grandparent = None;
                     parent = Some(w.clone());
                     match h.op_next(&w) {
+                        Some(u) => {
+                            unsealed = u;
+                            continue;
+                        }
+                        None => break,
+                    }
+                }
+            }
+        }
+        // faucet-centred histories restart now and then as well
+        if !em.chain_ops && em.faucets >= 30 && r.chance(1, 2) {
+            if let Some(rs) = h.op_restore(&sealed) {
+                if r.chance(1, 2) {
+                    grandparent = parent.take();
+                    parent = Some(rs.clone());
+                    match h.op_next(&rs) {
                         Some(u) => {
                             unsealed = u;
                             continue;
